@@ -285,9 +285,8 @@ func (w *blobWriter) Write(buf []byte) (int, error) {
 			return 0, err
 		}
 	} else {
-		if w.chunk == nil {
-			w.chunk = make([]byte, 0, w.chunkSize)
-		}
+		// Note: w.chunkSize can come from the server (OCI-Chunk-Min-Length),
+		// so don't use it to preallocate: let append grow the buffer.
 		w.chunk = append(w.chunk, buf...)
 	}
 	w.size += int64(len(buf))
